@@ -37,8 +37,9 @@ thread_local! {
 /// (fd, identity of the open file description, cloexec)
 type Entry = (i32, usize, bool);
 
-const PATHS: [(&str, &str); 10] = [
+const PATHS: [(&str, &str); 11] = [
     ("s", "/tmp/s"),
+    ("t", "/tmp/t"),
     ("in", "/dev/stdin"),
     ("out", "/dev/stdout"),
     ("err", "/dev/stderr"),
@@ -66,7 +67,9 @@ fn tainted(name: &str, inode: &Rc<RefCell<Inode>>) -> bool {
         return true;
     }
     let now = match &inode.borrow().body {
-        FileBody::Regular { content, .. } => !content.iter().all(|b| harness_byte(*b)),
+        FileBody::Regular { content, .. } | FileBody::Terminal { content } => {
+            !content.iter().all(|b| harness_byte(*b))
+        }
         _ => false,
     };
     if now {
@@ -191,6 +194,10 @@ fn c09_builtins() -> Vec<(&'static str, Builtin<VSys>)> {
         ("mark", Builtin::new(Type::Mandatory, mark_main)),
         ("fds", Builtin::new(Type::Mandatory, fds_main)),
         ("sfds", Builtin::new(Type::Special, fds_main)),
+        // the same probe under every other built-in type `execute_builtin` distinguishes
+        ("efds", Builtin::new(Type::Elective, fds_main)),
+        ("xfds", Builtin::new(Type::Extension, fds_main)),
+        ("ufds", Builtin::new(Type::Substitutive, fds_main)),
     ]
 }
 
@@ -319,8 +326,8 @@ fn parse_redirs(text: &str) -> Option<Vec<RedirSpec>> {
         }
         let fd: i32 = w[0].parse().ok()?;
         let ok_operand = match w[1] {
-            "in" | "out" | "clob" | "app" | "rw" => ["a", "b", "m", "n", "d", "e", "E"].contains(&w[2]),
-            "dupin" | "dupout" => w[2] == "-" || w[2] == "z" || w[2] == "E" || w[2].parse::<u32>().is_ok(),
+            "in" | "out" | "clob" | "app" | "rw" => FILE_OPERANDS.contains(&w[2]),
+            "dupin" | "dupout" => ["-", "z", "E", "big", "neg"].contains(&w[2]) || w[2].parse::<u32>().is_ok(),
             "here" => true,
             "pipe" | "hstr" => true,
             _ => false,
@@ -375,6 +382,14 @@ fn operand_text(o: &str) -> String {
         "d" => "/tmp/d".into(),
         "e" => "/tmp/a/e".into(),
         "E" => "${u?}".into(),
+        "t" => "/tmp/t".into(),
+        // a pathname with a NUL byte, a pathname out of a command substitution
+        "N" => "$'/tmp/a\\0b'".into(),
+        "ca" => "$(echo /tmp/a)".into(),
+        "cm" => "$(echo /tmp/m)".into(),
+        // descriptor operands that do not fit / are negative
+        "big" => "99999999999".into(),
+        "neg" => "-1".into(),
         other => other.to_string(),
     }
 }
@@ -417,6 +432,21 @@ fn command_text(kind: &str, redirs: &[RedirSpec], salt: u64) -> String {
         "empty" => "",
         "paren" => "( fds )",
         "cmdexec" => "command exec",
+        "elective" => "efds",
+        "extension" => "xfds",
+        "substitutive" => "ufds",
+        // found when the command is looked up, lost after the assignment to PATH: `resolve_builtin` fails
+        "substlost" => "PATH=/nonexistent ufds",
+        "funcret" => "g",
+        "assign" => "v=2",
+        "ext" => "ext",
+        "extp" => "/tmp/bin/ext",
+        "execbad" => "exec --no-such-option",
+        "forloop" => "for i in 1; do fds; done",
+        "whileloop" => "while :; do fds; break; done",
+        "untilloop" => "until fds; do :; done",
+        "ifcmd" => "if fds; then :; fi",
+        "casecmd" => "case x in x) fds;; esac",
         "execnf" => "exec nosuchcmd",
         "execne" => "exec /tmp/a",
         "cmdexecnf" => "command exec nosuchcmd",
@@ -424,11 +454,15 @@ fn command_text(kind: &str, redirs: &[RedirSpec], salt: u64) -> String {
         "dotx" => ". /tmp/a/e",
         _ => "exec",
     };
-    format!("{} {}\n{}mark\n", cmd, words.join(" "), bodies)
+    // half of the simple commands carry an assignment before the command word
+    let simple = !["brace", "paren", "empty", "assign", "substlost", "forloop", "whileloop", "untilloop", "ifcmd", "casecmd"]
+        .contains(&kind);
+    let prefix = if simple && (salt >> 40) & 1 == 1 { "v=1 " } else { "" };
+    format!("{}{} {}\n{}mark\n", prefix, cmd, words.join(" "), bodies)
 }
 
 fn script_of(c: &Case, salt: u64) -> String {
-    let mut s = String::from("f() { fds; }\nmark\n");
+    let mut s = String::from("f() { fds; }\ng() { fds; return 3; }\nPATH=/tmp/bin\nmark\n");
     for (i, (kind, redirs)) in c.commands.iter().enumerate() {
         s.push_str(&command_text(kind, redirs, salt.rotate_left(7 * i as u32)));
     }
@@ -444,6 +478,20 @@ fn setup_system(env: &mut VEnv, state: &Rc<RefCell<SystemState>>, pre: &[(i32, c
     reg("/tmp/b", &[3, 4]);
     reg("/tmp/p", &[5, 6]);
     reg("/tmp/s", b"fds\n");
+    // a terminal device file: exists, is not regular, reads and writes like a regular file
+    let tty = Rc::new(RefCell::new(Inode {
+        body: FileBody::Terminal { content: vec![7] },
+        permissions: Mode::ALL_9,
+    }));
+    state.borrow_mut().file_system.save("/tmp/t", tty).unwrap();
+    // an executable file (the simulator's execve fails with ENOSYS in the child)
+    let mut exe = Inode::new(b"x".to_vec());
+    exe.permissions = Mode::ALL_9;
+    state.borrow_mut().file_system.save("/tmp/bin/ext", Rc::new(RefCell::new(exe))).unwrap();
+    // the external counterpart a substitutive built-in needs in PATH
+    let mut exe = Inode::new(b"x".to_vec());
+    exe.permissions = Mode::ALL_9;
+    state.borrow_mut().file_system.save("/tmp/bin/ufds", Rc::new(RefCell::new(exe))).unwrap();
     let dir = Rc::new(RefCell::new(Inode {
         body: FileBody::Directory { files: Default::default() },
         permissions: Mode::ALL_9,
@@ -506,7 +554,7 @@ fn run_case(case: &str) -> (String, String) {
             let st = state.borrow();
             let (s, e) = snapshot(&st, env.main_pid);
             let mut files = vec![];
-            for name in ["in", "out", "a", "b", "m", "n", "p"] {
+            for name in ["in", "out", "a", "b", "m", "n", "p", "t"] {
                 let path = PATHS.iter().find(|p| p.0 == name).unwrap().1;
                 let text = match st.file_system.get(path) {
                     Err(_) => "x".to_string(),
@@ -514,7 +562,7 @@ fn run_case(case: &str) -> (String, String) {
                         let is_tainted = tainted(name, &inode_rc);
                         let inode = inode_rc.borrow();
                         match &inode.body {
-                            FileBody::Regular { content, .. } => {
+                            FileBody::Regular { content, .. } | FileBody::Terminal { content } => {
                                 if is_tainted {
                                     "T".to_string()
                                 } else {
@@ -649,14 +697,16 @@ fn run_guarded(case: &str) -> (String, String) {
     if o.starts_with("PANIC") { (o.clone(), format!("FAIL:{o}")) } else { out }
 }
 
-const KINDS: [&str; 15] = [
+const KINDS: [&str; 29] = [
+    "elective", "extension", "substitutive", "substlost",
     "special", "colon", "regular", "func", "brace", "notfound", "empty", "exec", "paren", "cmdexec", "dot", "dotx",
-    "execnf", "execne", "cmdexecnf",
+    "execnf", "execne", "cmdexecnf", "funcret", "assign", "ext", "extp", "execbad", "forloop", "whileloop",
+    "untilloop", "ifcmd", "casecmd",
 ];
 /// kinds whose built-in asks to retain the redirections (`should_retain_redirs`)
 const EXEC_FAMILY: [&str; 5] = ["exec", "cmdexec", "execnf", "execne", "cmdexecnf"];
 const FILE_OPS: [&str; 5] = ["in", "out", "clob", "app", "rw"];
-const FILE_OPERANDS: [&str; 7] = ["a", "b", "m", "n", "d", "e", "E"];
+const FILE_OPERANDS: [&str; 11] = ["a", "b", "m", "n", "d", "e", "E", "t", "N", "ca", "cm"];
 
 fn gen_redir(r: &mut Rng) -> String {
     let fd = match r.below(10) {
@@ -673,7 +723,7 @@ fn gen_redir(r: &mut Rng) -> String {
             let op = r.pick(&["dupin", "dupout"]);
             let src = match r.below(10) {
                 0 => "-".to_string(),
-                1 => "z".to_string(),
+                1 => r.pick(&["z", "big", "neg", "4000"]).to_string(),
                 2 => "E".to_string(),
                 3..=6 => r.below(4).to_string(),
                 7 => (4 + r.below(6)).to_string(),
@@ -748,7 +798,7 @@ fn systematic(thorough: bool) -> Vec<String> {
         }
     }
     for op in ["dupin", "dupout"] {
-        for o in ["-", "z", "0", "1", "2", "3", "5", "10", "11"] {
+        for o in ["-", "z", "0", "1", "2", "3", "5", "10", "11", "big", "neg", "4000"] {
             singles.push(format!("{op} {o}"));
         }
     }
